@@ -274,17 +274,40 @@ func decisionTable(start *ssa.BasicBlock, cfg dtConfig) []dtLeaf {
 				}
 				return
 			}
+			// a flag that was set on the way (a phi): the value it has on this path
+			condV := last.Cond
+			for i := 0; i < 4; i++ {
+				ph, ok := condV.(*ssa.Phi)
+				if !ok {
+					break
+				}
+				resolved := false
+				for k := len(path) - 1; k >= 1 && !resolved; k-- {
+					if path[k] == ph.Block() {
+						for j, pr := range ph.Block().Preds {
+							if pr == path[k-1] {
+								condV = ph.Edges[j]
+								resolved = true
+							}
+						}
+						break
+					}
+				}
+				if !resolved {
+					break
+				}
+			}
 			// does the condition depend on the variable in a way we do not model?
-			if dependsOn(last.Cond, cfg.Var, 0) {
+			if dependsOn(condV, cfg.Var, 0) {
 				leaves = append(leaves, dtLeaf{Set: s, Effect: "undecided:condition on the variable that is not a comparison with a constant: " + last.Cond.String(), Tags: tags, Block: b, From: from})
 				return
 			}
 			tag := ""
 			if cfg.TagOf != nil {
-				tag = cfg.TagOf(last.Cond)
+				tag = cfg.TagOf(condV)
 			}
 			if tag == "" {
-				tag = last.Cond.Name()
+				tag = condV.Name()
 			}
 			walk(b.Succs[0], path, s, appendTag(tags, tag+"=true"), depth+1)
 			walk(b.Succs[1], path, s, appendTag(tags, tag+"=false"), depth+1)
@@ -439,6 +462,9 @@ func undecidedLeaves(leaves []dtLeaf) []string {
 	return out
 }
 
+// theProgram: the loaded program (for evaluators that are reached without one).
+var theProgram *Program
+
 func byteDomain() *relang.Set { return relang.NewSet(0, 255) }
 func runeDomain() *relang.Set {
 	// every value a range-over-string can yield
@@ -487,6 +513,15 @@ func constBoolTables(p *Program, rel string) tableEval {
 						set = set.Union(relang.NewSet(int32(kv), int32(kv)))
 					}
 				}
+			} else if tbl, ok := foldedIntTable(p, g); ok {
+				// not a literal: built once by a foldable function
+				for i, v := range tbl {
+					if v != 0 {
+						set = set.Union(relang.NewSet(int32(i), int32(i)))
+					}
+				}
+				cache[g] = set
+				return set, true
 			} else {
 				bad[g] = true
 				return nil, false
@@ -563,6 +598,29 @@ func derive(v ssa.Value, cfg dtConfig, depth int) (func(int64) int64, bool) {
 	}
 	if depth > 6 {
 		return nil, false
+	}
+	// a lookup in a constant table of integers (a literal, or built once by a foldable function)
+	if u, ok := v.(*ssa.UnOp); ok && u.Op == token.MUL && theProgram != nil {
+		if ia, ok := u.X.(*ssa.IndexAddr); ok {
+			if g, ok := ia.X.(*ssa.Global); ok {
+				if tbl, ok := foldedIntTable(theProgram, g); ok {
+					inner, direct := derive(ia.Index, cfg, depth+1)
+					if !direct && inner == nil {
+						return nil, false
+					}
+					if inner == nil {
+						inner = func(x int64) int64 { return x }
+					}
+					return func(x int64) int64 {
+						i := inner(x)
+						if i < 0 || i >= int64(len(tbl)) {
+							return -1 << 40 // out of range: no table value
+						}
+						return tbl[i]
+					}, false
+				}
+			}
+		}
 	}
 	bo, ok := v.(*ssa.BinOp)
 	if !ok {
